@@ -410,3 +410,7 @@ mod tests {
         assert!(node1.process_message(msg2).is_some());
     }
 }
+
+#[cfg(vpncloud_verif)]
+#[path = "/verif/harness/hooks/rotate.rs"]
+pub mod verif;
